@@ -107,7 +107,7 @@ def job_interp_ctor():
 
 def job_borrowed(which):
     """guard obligations owned by other properties, re-run under C10 (same code, same keys)"""
-    if which == 'C02-entry': return C02.job_entry('lt', 1) + C02.job_entry('gt', 1)
+    if which == 'C02-entry': return [o for o in C02.job_entry('lt', 1) + C02.job_entry('gt', 1) if not str(o.get('key') or '').startswith('C02/accuracy')]      # the accuracy clause belongs to C02 only
     if which == 'C06-guards': return C06.job_guards()
     if which == 'C07-guards': return [o for o in C07.job_exponential() + C07.job_binomial(2) + C07.job_poisson_likelihood(1, 2) if 'guard' in o['name'] or 'mismatch' in o['name']]
     if which == 'C12-length': return [o for o in C12.job_overloads(1) if 'length-mismatch' in o['name']]
